@@ -278,6 +278,11 @@ func parseContractFile(path, pkgPath string, ps *PkgSpec) error {
 				cl := &Clause{Label: label, Src: rest, File: path, Line: lineNo}
 				all = append(all, cl)
 				lastClause = cl
+				if curLoop != nil && (kw == "requires" || kw == "ensures") {
+					// a function-level clause after a loop section means the contract is laid out wrongly: a
+					// `modifies` next to it would silently have become the loop's
+					return fmt.Errorf("%s:%d: %s after a loop section (function-level clauses come before the loops)", path, lineNo, kw)
+				}
 				switch kw {
 				case "requires":
 					cur.Requires = append(cur.Requires, cl)
